@@ -94,7 +94,9 @@ def gen_filepatch(rng):
         n = o.replace(b"a/", b"b/", 1) if o.startswith(b"a/") else o
     out = b""
     if style == "ts":
-        out += b"--- " + o + b"\t2020-01-01 00:00:00.000000000 +0000\n+++ " + n + b"\t2020-01-02 00:00:00 +0000\n"
+        stamp = rng.choice([b"\t2020-01-01 00:00:00.000000000 +0000", b"\t1970-01-01 00:00:00.000000000 +0000", b"\t1970-01-01 00:00:00 +0000",
+                            b"\t1970-01-01 00:00:00Z", b" 1970-01-01 01:00:00.000000000 +0100", b"\tThu Jan  1 00:00:00 1970"])
+        out += b"--- " + o + stamp + b"\n+++ " + n + rng.choice([b"\t2020-01-02 00:00:00 +0000", stamp]) + b"\n"
     elif style in ("git", "gitnohunk"):
         out += b"diff --git " + o + b" " + n + b"\n"
         meta = []
